@@ -256,8 +256,8 @@ Definition fetch (L : list wentry) (from : N) : list wentry :=
 
 Definition poll (L : list wentry) (from : N) : list pentry := map to_proto (fetch L from).
 
-(* what EngineApplier.Apply does to the replica's data: put and merge store the value,
-   delete removes the key; the view is the sorted association list of live keys *)
+(* what EngineApplier.Apply does to the replica's data: put stores the value, delete removes
+   the key, a merge entry has no effect (as on the primary); the view is the sorted association list of live keys *)
 Fixpoint view_set (k v : bytes) (m : list (bytes * bytes)) : list (bytes * bytes) :=
   match m with
   | [] => [(k, v)]
@@ -281,7 +281,8 @@ Fixpoint view_del (k : bytes) (m : list (bytes * bytes)) : list (bytes * bytes) 
   end.
 
 Definition view_apply (m : list (bytes * bytes)) (e : wentry) : list (bytes * bytes) :=
-  if w_op e =? OpDel then view_del (w_key e) m else view_set (w_key e) (w_val e) m.
+  if w_op e =? OpDel then view_del (w_key e) m
+  else if w_op e =? OpPut then view_set (w_key e) (w_val e) m else m.
 
 Definition view (es : list wentry) : list (bytes * bytes) := fold_left view_apply es [].
 
